@@ -33,6 +33,7 @@ RULE = ("histories: a real client/server pair brought into a drawn state (connec
         "non-trivial = target holds a key and has a pending ack named by the datagram's ack fields, or a non-empty receive "
         "window, or a queued callback; distinct by (class, type, count, inner types, target, state, seq placement, op).")
 RULE += (" " + 'Round-8 addition: attack class freshhello = the complete, padded, CRC-valid CLIENT_HELLO datagram of a brand-new client (another key, datagram number 1 / 2 / next expected) aimed at established, half-open and closing endpoints.')
+RULE += (" " + 'Round-9 addition: in half of the histories a second, busier session (24 ticks of traffic both ways) shares the server and the process; attack class othersession injects its genuine sealed datagrams (one of the seven newest, either direction) into the victim session from the victim address.')
 ASSUMPTIONS = [
     "AES-GCM (OpenSSL) is trusted; the attacker knows everything on the wire but no session key",
     "an extension of a delivered genuine datagram is a duplicate of it (allowed outcome: dropped, counted)",
@@ -118,7 +119,16 @@ freshhello = st.fixed_dictionaries({
     "via": st.sampled_from(["direct", "both", "loop"]),
 })
 
-attack = st.one_of(forged, forged, mutate, mutate, wrongkey, randbytes, freshhello)
+# a GENUINE datagram of ANOTHER live session of the same process (sealed under that session's key, already decoded once by
+# its own endpoint), sent to the target from the victim's address: "a datagram sealed under another key"
+othersession = st.fixed_dictionaries({
+    "cls": st.just("othersession"),
+    "target": st.sampled_from(["server", "server", "client"]),
+    "pick": st.integers(0, 6),
+    "via": st.sampled_from(["direct", "both", "loop"]),
+})
+
+attack = st.one_of(forged, forged, mutate, mutate, wrongkey, randbytes, freshhello, othersession)
 
 traffic_tick = st.lists(scen.sends, min_size=0, max_size=3)
 
@@ -129,6 +139,7 @@ histories = st.fixed_dictionaries({
     "traffic": st.lists(traffic_tick, min_size=1, max_size=8),
     "link": scen.link_specs(max_loss=0.2, outages=False),
     "attacks": st.lists(st.tuples(st.integers(0, 6), attack).map(list), min_size=4, max_size=40),
+    "neighbour": st.booleans(),    # a second, busier session on the same server while the attacks arrive (source of othersession datagrams)
     "quiet": st.sampled_from([0.0, 0.0, 1.3, 2.5]),     # the honest client is not heard by the server for that long while the attacks arrive
 })
 
@@ -282,6 +293,17 @@ def build_attack(w, ch, atk, a):
         d = W.build_datagram(to_server, ctime, seq, ack, bits, a["ptype"], msgs, key=key, crc=crc)
         facts.update(names_pending=bool(conn.pending_acks) and a["ack"] != "zero", types=sorted({m[1] for m in msgs}))
         return d, facts
+    if cls == "othersession":
+        nb = getattr(w, "neighbour", None)
+        if nb is None:
+            return None, "no-neighbour"
+        gen = [em for em in w.net.log if em.key is not None and em.fates and em.to_server == to_server
+               and (em.src == nb.laddr if to_server else em.dst == nb.laddr) and W.parse_header(em.data).type != W.T_SERVER_HELLO]
+        if not gen:
+            return None, "no-genuine"
+        em = gen[-1 - min(a["pick"], len(gen) - 1)]
+        facts.update(names_pending=bool(conn.pending_acks), types=[])
+        return em.data, facts
     if cls == "freshhello":
         seq = a["seq"] if isinstance(a["seq"], int) else place_seq(conn, "next")
         mseq = a["mseq"] if isinstance(a["mseq"], int) else seq_add(int(conn.bitfield_msg.current_seqnum), 1)
@@ -434,6 +456,15 @@ def hist_body(ctx, c):
             token0 = key0 = None
             temp0 = (conn, conn.session_key_bytes, conn.token)
         else:
+            if c.get("neighbour"):
+                # another client of the same server (and, in this harness, of the same process) whose session is busier than the
+                # victim's: its datagram numbers run ahead, and every one of its datagrams has been opened by its own endpoints
+                nb = w.connect_client(laddr=("10.0.5.5", 45500))
+                for k in range(24):
+                    scen.do_send(w, nb, "c", 20, 0, 600000 + 2 * k, callback=False)
+                    scen.do_send(w, nb, "s", 20, 0, 600001 + 2 * k, callback=False)
+                    w.step(0.017)
+                w.neighbour = nb
             ch = w.connect_client()
             token0, key0 = ch.conn.token, ch.conn.session_key_bytes
             link.t_base = w.clock.t
